@@ -99,3 +99,22 @@ def check_limits(model, info, art):
                 if m.calls != exp_calls or raised != exp_raise or (not exp_raise and len(rec) != nwarn):
                     return "confirmed", f"{cls.__name__} device, plan {list(zip(cmds, objs, vals))}: check_value calls {m.calls} (documented {exp_calls}), raised={raised} (documented {exp_raise}), warnings={len(rec)}"
   return "contradicted", "no deviation on plans with 3 messages (synchronous and asynchronous check_value)"
+
+
+def add_handler_names(model, info, art):
+    """a handler registered for one command (a string) is consulted for exactly that command"""
+    bad = []
+    for reg, other in (("wait_for", "wait"), ("unstage", "stage"), ("unmonitor", "monitor"), ("unsubscribe", "subscribe"), ("wait", "wait_for"),
+                       (info.get("registered", "set"), info.get("message", "settle"))):
+        sim = RunEngineSimulator()
+        sim.add_handler(reg, lambda m: "handled")
+        got = []
+
+        def plan():
+            got.append((yield Msg(reg)))
+            got.append((yield Msg(other)))
+        sim.simulate_plan(plan())
+        want = ["handled", "handled" if other == reg else None]
+        if got != want:
+            bad.append(f"handler registered for {reg!r}: plan yielding {reg!r}, {other!r} received {got} (documented {want})")
+    return ("confirmed" if bad else "contradicted"), "; ".join(bad) or "handlers are consulted for exactly their command"
